@@ -609,6 +609,10 @@ where
         }
     }
 
+    pub(crate) fn capacity(&self) -> Result<u64, DbError> {
+        self.data.capacity()
+    }
+
     pub fn node<'a>(
         &'a self,
         storage: &'a Storage<D>,
